@@ -244,6 +244,11 @@ func init() {
 		}
 		plush.CacheEnabled = false
 		// the repaired defects stay in the corpus
+		// for loops whose iterable is a call chained with fields, indexes and further calls
+		for _, in := range []string{"<%= for (x) in a().B { %>p<% } %>", "<%= for (x) in a.b().c().d { %>p<% } %>", "<%= for (x) in f()[0] { %>q<% } %>", "<% for (x) in a().b.c() { %>r<% } %>",
+			"<%= for (k, v) in f(1)(2) { %>s<% } %>", "<%= for (x) in a().b[0].c { %>t<% } %>", "<%= for (x) in a().B", "<%= for (x) in a().B {", "<%= for (x) in a() { %>u<% } %>", "<%= for (x) in a()() { %>", "<%= for (x) in a().b() { x } %>"} {
+			e.addParseCase("for-chain", in)
+		}
 		for _, in := range []string{"<%# abc", "<% break( %>", "<% for (x) in ) { %>", "<%= {a: ) } %>", "<%= xs[)] %>", "<% break[1] %>", "<%= [1, )] %>", "a\\<", "\\<", "<%= {let: 1} %>", "<% if (true) { } else if (let) { } %>"} {
 			e.addParseCase("corpus", in)
 		}
